@@ -7,7 +7,7 @@ _BIN = { ast.Add: operator.add, ast.Sub: operator.sub, ast.Mult: operator.mul, a
 _UN = { ast.USub: operator.neg, ast.UAdd: operator.pos, ast.Invert: operator.invert, ast.Not: operator.not_ }
 
 
-_PURE_STR_METHODS = ( 'startswith', 'endswith', 'lower', 'upper', 'strip', 'lstrip', 'rstrip', 'isdigit', 'split', 'replace', 'zfill', 'encode', 'decode', 'count', 'find', 'rfind', 'partition', 'rpartition' )
+_PURE_STR_METHODS = ( 'startswith', 'endswith', 'lower', 'upper', 'strip', 'lstrip', 'rstrip', 'isdigit', 'split', 'replace', 'zfill', 'encode', 'decode', 'count', 'find', 'rfind', 'partition', 'rpartition', 'ljust', 'rjust', 'center', 'title', 'capitalize', 'casefold', 'isalpha', 'isalnum' )
 
 
 class NoFold( Exception ):
@@ -16,7 +16,8 @@ class NoFold( Exception ):
 
 _SAFE_BUILTINS = { 'str': str, 'int': int, 'len': len, 'max': max, 'min': min, 'bool': bool, 'abs': abs, 'tuple': tuple, 'list': list,
                    'all': all, 'any': any, 'zip': lambda *a: list( zip( *a )), 'sorted': sorted, 'set': set, 'dict': dict, 'enumerate': lambda x: list( enumerate( x )),
-                   'range': lambda *a: list( range( *a )), 'sum': sum, 'isinstance': None }
+                   'range': lambda *a: list( range( *a )), 'sum': sum, 'isinstance': None,
+                   'bytes': bytes, 'bytearray': lambda *a: bytes( bytearray( *a )), 'float': float, 'repr': repr }
 
 
 def fold( e, env=None ):
@@ -37,6 +38,9 @@ def fold( e, env=None ):
         return tuple( fold( x, env ) for x in e.elts )
     if isinstance( e, ast.List ):
         return [ fold( x, env ) for x in e.elts ]
+    if isinstance( e, ast.Slice ):
+        return slice( fold( e.lower, env ) if e.lower is not None else None, fold( e.upper, env ) if e.upper is not None else None,
+                      fold( e.step, env ) if e.step is not None else None )
     if isinstance( e, ast.Subscript ):
         v = fold( e.value, env ); k = fold( e.slice, env )
         try:
